@@ -371,14 +371,43 @@ func ruleAmountStringUntouched(c *report.Ctx) {
 	}
 	var okSrc func(v ssa.Value, depth int) (bool, string)
 	okSrc = func(v ssa.Value, depth int) (bool, string) {
-		if depth > 6 {
+		if depth > 12 {
 			return false, "undecided"
 		}
 		switch x := v.(type) {
 		case *ssa.Parameter, *ssa.Const, *ssa.Lookup, *ssa.FreeVar:
 			return true, ""
 		case *ssa.UnOp:
-			return true, "" // field / element load
+			// field / element load; a field that module code assigns (a configuration value normalised on load) is the
+			// caller's text only if everything assigned to it is
+			if fa, isFA := x.X.(*ssa.FieldAddr); isFA {
+				isWire := false // messages of the RPC schema are filled on one side of the wire and read on the other
+				if n := an.NamedOf(fa.X.Type()); n != nil && n.Obj().Pkg() != nil && strings.HasSuffix(n.Obj().Pkg().Path(), "/api/proto") {
+					isWire = true
+				}
+				if st := derefStructOf(fa.X.Type()); st != nil && !isWire {
+					for _, g := range p.ModFuncs {
+						var bad string
+						an.Instrs(g, func(in ssa.Instruction) {
+							s2, ok := in.(*ssa.Store)
+							if !ok || bad != "" {
+								return
+							}
+							fa2, ok := s2.Addr.(*ssa.FieldAddr)
+							if !ok || fa2.Field != fa.Field || derefStructOf(fa2.X.Type()) != st {
+								return
+							}
+							if ok2, why := okSrc(s2.Val, depth+1); !ok2 {
+								bad = why
+							}
+						})
+						if bad != "" {
+							return false, bad + " (assigned to the field in " + sk(g) + ")"
+						}
+					}
+				}
+			}
+			return true, ""
 		case *ssa.Phi:
 			for _, e := range x.Edges {
 				if ok, why := okSrc(e, depth+1); !ok {
@@ -389,6 +418,17 @@ func ruleAmountStringUntouched(c *report.Ctx) {
 		case *ssa.Call:
 			if cal := x.Call.StaticCallee(); cal != nil && strings.HasPrefix(an.CanonKeyOf(cal), "strings.Trim") {
 				return okSrc(x.Call.Args[0], depth+1) // removes characters at the ends only (blanks, a unit suffix): the parser still sees the caller's digits
+			}
+			// a module function with one result that hands back text it was given (a normaliser)
+			if cal := x.Call.StaticCallee(); cal != nil && an.FuncPkg(cal) != nil && strings.HasPrefix(an.FuncPkg(cal).Path(), pkgMain) && len(cal.Blocks) > 0 && cal.Signature.Results().Len() == 1 {
+				for _, b := range cal.Blocks {
+					if r, isRet := b.Instrs[len(b.Instrs)-1].(*ssa.Return); isRet && len(r.Results) == 1 {
+						if ok, why := okSrc(r.Results[0], depth+1); !ok {
+							return false, why
+						}
+					}
+				}
+				return true, ""
 			}
 			return false, p.Desc(v)
 		case *ssa.Extract:
@@ -1325,4 +1365,13 @@ func ruleExternalScanAlwaysRuns(c *report.Ctx) {
 	if n == 0 {
 		c.Fail(sk(f)+":ExternalChildNum=1", "anchor lost: the external hint is no longer defaulted", p.Pos(f.Pos()))
 	}
+}
+
+// derefStructOf: the struct type behind a (pointer to a) named or unnamed struct.
+func derefStructOf(t types.Type) *types.Struct {
+	if pt, ok := t.Underlying().(*types.Pointer); ok {
+		t = pt.Elem()
+	}
+	st, _ := t.Underlying().(*types.Struct)
+	return st
 }
